@@ -461,7 +461,7 @@ def reduction_case(ctx, rng):
             with warnings.catch_warnings():
                 warnings.simplefilter("ignore")
                 full = Ms.to_pubo(deg=10 ** 6) if cname in ("PUSO", "PCSO") else Ms
-            if any(hasattr(v, "free_symbols") and v.free_symbols and v.subs({lam: c}) == 0 for v in full.values()):
+            if any(hasattr(v, "free_symbols") and v.free_symbols and v.subs({lam: c}) == 0 for v in list(full.values()) + list(Ms.values())):
                 ctx.cat("reduction:coincidental-cancellation-skipped")
                 return
         plam = rng.choice([None, None, 3])
